@@ -65,6 +65,7 @@ type FuncContract struct {
 	ModArgs  []string // pointer parameters whose pointee may be arbitrarily modified (trusted externals)
 	ModAll   bool     // trusted function may modify any modelled heap location
 	NoEffects bool    // assumed to leave every modelled heap location unchanged (noverify functions; listed in the evidence)
+	AssumeCalleeReq bool // callee preconditions at this function's call sites are assumed, not proved
 	NoVerify bool     // contract used at call sites only (declared but body check skipped, counts as assumption)
 	File     string
 	Line     int
@@ -123,7 +124,7 @@ func NewSpecs() *Specs {
 	return &Specs{Funcs: map[string]*FuncContract{}, Spec: map[string]*SpecFunc{}, Axioms: map[string]*Axiom{}, Ghost: map[string]*GhostVar{}, Consts: map[string]string{}}
 }
 
-var kwRe = regexp.MustCompile(`^(func|iface|spec|macro|axiom|lemma|ghost|effectfree|property|requires|ensures|loop|let|trusted|pure|inline|noinline|safe|uses|modifies|noverify|noeffects|at|sets|local|reveals|opaque|witness|assumes|nocall)\b`)
+var kwRe = regexp.MustCompile(`^(func|iface|spec|macro|axiom|lemma|ghost|effectfree|property|requires|ensures|loop|let|trusted|pure|inline|noinline|safe|uses|modifies|noverify|noeffects|at|sets|local|reveals|opaque|witness|assumes|nocall|trustcallees)\b`)
 
 // LoadFile parses one contract file. pkgPath is the import path used for
 // unqualified function names ("" for .spec files, which use full paths).
@@ -370,6 +371,11 @@ func (s *Specs) LoadFile(path, pkgPath string) error {
 			cur.NoCalls = append(cur.NoCalls, AtClause{Callee: fs[0], C: c})
 		case "noeffects":
 			cur.NoEffects = true
+		case "trustcallees":
+			// the preconditions of the callees of THIS function are assumed at its call sites
+			// instead of proved (listed as an assumption): for functions whose contract is
+			// only about their own call-site assertions
+			cur.AssumeCalleeReq = true
 		case "pure":
 			cur.Pure = true
 		case "inline":
